@@ -76,3 +76,65 @@ theorem awaitNext_ne_panic {σ ι} (D : Decoder σ ι) (h : D.NoPanic) (evs : Li
   awaitNextFuel_ne_panic D h _ evs s r
 
 end Modbus
+
+namespace Modbus
+
+/-- `x` is something the decoder can produce -/
+def Decoder.Yields {σ ι} (D : Decoder σ ι) (x : ι) : Prop :=
+  ∃ s buf s' b', D.decode s buf = (.ok (some x), s', b')
+
+theorem decodeEof_item {σ ι} (D : Decoder σ ι) (s s' : σ) (buf b' : Bytes) (x : ι)
+    (h : D.decodeEof s buf = (.ok (some x), s', b')) : D.Yields x := by
+  unfold Decoder.decodeEof at h
+  split at h
+  · split at h <;> simp at h
+  · exact ⟨s, buf, s', b', h⟩
+
+theorem pre_item {σ ι} (D : Decoder σ ι) (s : σ) (r : ReadFrame) (x : ι)
+    (h : (ReadFrame.pre D s r).1 = some (.item x)) : D.Yields x := by
+  unfold ReadFrame.pre at h
+  split at h
+  · simp at h
+  · split at h
+    · split at h
+      · split at h <;> simp at h
+        rename_i heq
+        subst h
+        exact decodeEof_item D _ _ _ _ _ heq
+      · split at h <;> simp at h
+        rename_i heq
+        subst h
+        exact ⟨_, _, _, _, heq⟩
+    · simp at h
+
+/-- every item `poll_next` delivers was produced by the decoder -/
+theorem pollNext_item {σ ι} (D : Decoder σ ι) (x : ι) :
+    ∀ (evs : List ReadEv) (s : σ) (r : ReadFrame), (pollNext D s r evs).1 = .item x → D.Yields x := by
+  intro evs
+  induction evs with
+  | nil =>
+    intro s r h
+    unfold pollNext at h
+    split at h
+    · rename_i p s' r' heq
+      simp only at h
+      exact pre_item D s r x (by rw [heq, h])
+    · simp at h
+  | cons e evs ih =>
+    intro s r h
+    unfold pollNext at h
+    split at h
+    · rename_i p s' r' heq
+      simp only at h
+      exact pre_item D s r x (by rw [heq, h])
+    · cases e with
+      | pending => simp at h
+      | err k => simp at h
+      | eof => simp only at h; split at h <;> first | exact ih _ _ h | simp at h
+      | data bs =>
+        simp only at h
+        split at h
+        · split at h <;> first | exact ih _ _ h | simp at h
+        · exact ih _ _ h
+
+end Modbus
